@@ -20,14 +20,14 @@ Entries == {"aperture_photometry", "do_photometry", "aperture_mask", "aperture_s
             "bkg_estimators", "detect_threshold", "detect_sources", "deblend_sources", "source_finder", "source_catalog",
             "find_peaks", "daofinder", "iraffinder", "starfinder", "centroids", "centroid_sources", "profiles", "psf_photometry",
             "iterative_psf", "calc_total_error", "utils", "morphology", "aperture_mask_edge", "stats_large",
-            "sky_apertures", "annuli", "fit_gaussian", "psf_matching", "datasets", "harmonics", "interpolators", "segment_cutouts"}
+            "aperture_photometry_subpixel", "sky_apertures", "annuli", "fit_gaussian", "psf_matching", "datasets", "harmonics", "interpolators", "segment_cutouts"}
 Reps == {"i8", "i2", "u2", "f4", "bigendian", "fortran", "strided", "ma_nomask", "ma_allfalse", "nddata", "quantity", "mixed_units"}
-NDDataEntries == {"aperture_photometry", "aperture_stats", "psf_photometry"}
+NDDataEntries == {"aperture_photometry_subpixel", "aperture_photometry", "aperture_stats", "psf_photometry"}
 \* entry points whose outputs are in data units (so Quantity inputs must give Quantity outputs)
-UnitEntries == {"aperture_mask_edge", "sky_apertures", "annuli", "interpolators", "segment_cutouts", "aperture_photometry", "do_photometry", "aperture_stats", "background2d", "local_background", "detect_threshold",
+UnitEntries == {"aperture_photometry_subpixel", "aperture_mask_edge", "sky_apertures", "annuli", "interpolators", "segment_cutouts", "aperture_photometry", "do_photometry", "aperture_stats", "background2d", "local_background", "detect_threshold",
                 "source_catalog", "find_peaks", "profiles", "psf_photometry", "calc_total_error"}
 \* entry points that take an error array next to the data (mixing units must be rejected)
-ErrorEntries == {"sky_apertures", "annuli", "aperture_photometry", "do_photometry", "aperture_stats", "source_catalog", "profiles", "psf_photometry", "centroids", "find_peaks"}
+ErrorEntries == {"aperture_photometry_subpixel", "sky_apertures", "annuli", "aperture_photometry", "do_photometry", "aperture_stats", "source_catalog", "profiles", "psf_photometry", "centroids", "find_peaks"}
 \* Background2D documents that integer input gives integer (rounded) output maps
 \* combinations the API does not offer: Poisson noise is applied to counts (dimensionless by nature); the harmonic fitters are
 \* numerical helpers on plain sample vectors
